@@ -80,6 +80,10 @@ STATEMENT_STATUS: Dict[str, str] = {
                        "once at any depth, the payload once, nothing for XRef streams - and projects to the pure model; "
                        "once_only_trace_elsewhere (objstm / trailer / Encrypt: zero calls); once_only_second_read_cached / "
                        "_uncached (cache state machine); tied to pdfminer by comparing real decipher calls each run",
+    "getobj_two_phase / C10_stream_dict_before_decode / once_only_phases": "proved: strings (also of a stream dictionary) are "
+        "deciphered by getobj itself, the payload by get_data(); getData(getobjLazy o) = getobj o for every well-formed object; the "
+        "dictionary getobj hands out for an encrypted stream is the plaintext dictionary before any get_data(); tied to pdfminer "
+        "by comparing the real cipher calls per phase (getobj | get_data | second getobj)",
     "perms_bits": "proved (bits 3/4/5 of the stored P); perms_of_signed_P relates signed and unsigned P",
     "C10_rejects_writer_partial": "partial (R2-R4): exactly two assumptions - H1 second-preimage resistance of the U check, "
                                   "H2 no other password yields an RC4 key decrypting O to the padded user password; "
@@ -215,9 +219,31 @@ def canon_impl(v: Any, flate_ok: bool = True) -> List[str]:
             out += canon_impl(x)
         return out
     if isinstance(v, PDFStream):
-        attrs = {k: x for k, x in v.attrs.items() if k not in ("Length", "Filter")}
-        return ["t:" + hx(v.get_data())] + canon_impl(attrs)
+        # the dictionary is read BEFORE the data is decoded: what a caller sees right after getobj()
+        before = canon_impl({k: x for k, x in v.attrs.items() if k not in ("Length", "Filter")})
+        return ["t:" + hx(v.get_data())] + before
     raise TypeError(repr(v))
+
+
+def stream_dict_views(doc, n: int) -> Dict[str, List[str]]:
+    """The dictionary of stream object `n` as seen through different, equally legitimate call orders."""
+    from pdfminer.pdftypes import PDFObjRef, PDFStream, resolve1
+
+    def view(st) -> List[str]:
+        return canon_impl({k: x for k, x in st.attrs.items() if k not in ("Length", "Filter")})
+    out: Dict[str, List[str]] = {}
+    st = doc.getobj(n)
+    if not isinstance(st, PDFStream):
+        return out
+    out["after getobj"] = view(st)
+    out["item access before decode"] = canon_impl({k: st[k] for k in st.attrs if k not in ("Length", "Filter")})
+    st.get_data()
+    out["after get_data"] = view(st)
+    st2 = resolve1(PDFObjRef(doc, n))
+    out["through a reference"] = view(st2)
+    st2.get_rawdata()
+    out["after get_rawdata"] = view(st2)
+    return out
 
 
 def canon_plain(v: Any) -> List[str]:
@@ -595,8 +621,26 @@ def check_case(ctx: C.Ctx, case: Case, do_text: bool, quiet: bool = False) -> Li
         expf = (bool(cfg.P & 4), bool(cfg.P & 8), bool(cfg.P & 16))
         if flags != expf:
             fail("permission flags differ from bits 3/4/5 of P", pw, list(expf), list(flags), "perms")
-        for n, (g, v) in sorted(case.objs.items()):
+        order = sorted(case.objs.items())
+        if pi % 3 == 1:
+            order.reverse()                  # access order must not matter (objstm members before / after others)
+        elif pi % 3 == 2:
+            random.Random(case.wseed + pi).shuffle(order)
+        for n, (g, v) in order:
             exp = canon_plain(v)
+            if isinstance(v, R.PStream) and pi % 2 == 1:
+                # call-order independence on a fresh, cache-less document: dictionary strings must be plaintext
+                # whether or not (and whenever) the payload has been decoded
+                try:
+                    views = stream_dict_views(open_impl(wr.data, pw, caching=False), n)
+                except Exception as e:  # noqa: BLE001
+                    views = {"views": ["EXC:" + type(e).__name__]}
+                for how, toks in views.items():
+                    if toks != exp[1:]:
+                        a, b = first_diff(exp[1:], toks)
+                        fail("strings of a stream dictionary differ from the original when read %s" % how, pw, a, b,
+                             "stream-dict-string", {"objid": n, "genno": g, "how": how})
+                        break
             for attempt in range(2):          # second read: cache / repeated get_data must not decrypt again
                 try:
                     got = canon_impl(doc.getobj(n))
@@ -644,6 +688,40 @@ def check_case(ctx: C.Ctx, case: Case, do_text: bool, quiet: bool = False) -> Li
                 fail("extract_text with the %s password differs from the unencrypted original" % role, pw,
                      plain_text[:80], t[:80], "text")
     return fails
+
+
+def check_interleaved(ctx: C.Ctx, a: "Case", b: "Case") -> None:
+    """Two different encrypted documents open at the same time, read alternately (and document A once more
+    after B was read completely): no state may leak between handlers / documents (class-level caches, module
+    globals, the cipher objects)."""
+    try:
+        wa, wb = a.write(True), b.write(True)
+        da, db = open_impl(wa.data, a.cfg.user), open_impl(wb.data, b.cfg.effective_owner(), caching=False)
+    except Exception as e:  # noqa: BLE001
+        ctx.fail(C.Failure("opening two documents side by side raised " + type(e).__name__,
+                           {"interleaved": [a.to_json(), b.to_json()]}, "both open", str(e)[:80], {"kind": "interleaved"}))
+        return
+    ia, ib = sorted(a.objs.items()), sorted(b.objs.items())
+    ctx.case(("interleaved", a.wseed, b.wseed), True, branch="interleaved")
+    seq = []
+    for k in range(max(len(ia), len(ib))):
+        if k < len(ia):
+            seq.append((da, "A") + ia[k])
+        if k < len(ib):
+            seq.append((db, "B") + ib[k])
+    seq += [(da, "A") + x for x in ia]
+    for doc, which, n, (g, v) in seq:
+        try:
+            got = canon_impl(doc.getobj(n))
+        except Exception as e:  # noqa: BLE001
+            got = ["EXC:" + type(e).__name__]
+        exp = canon_plain(v)
+        if got != exp:
+            x, y = first_diff(exp, got)
+            ctx.fail(C.Failure("object differs from the original when two encrypted documents are read alternately",
+                               {"interleaved": [a.to_json(), b.to_json()], "document": which, "objid": n}, x[:80], y[:80],
+                               {"kind": "interleaved", "objid": n}))
+            return
 
 
 def shrink_case(ctx: C.Ctx, case: Case, f: C.Failure) -> C.Failure:
@@ -883,6 +961,8 @@ def replay(ctx: C.Ctx, doc: Dict[str, Any], from_corpus: bool = False) -> None:
         case = Case.from_json(inp)
         run_case(ctx, case, True, "corpus" if from_corpus else "replay", shrink=False)
         model_check(ctx, [case], with_rc4=False)
+    elif "interleaved" in inp:
+        check_interleaved(ctx, Case.from_json(inp["interleaved"][0]), Case.from_json(inp["interleaved"][1]))
     elif "pwhash" in inp:
         j = inp["pwhash"]
         check_r6_hash(ctx, bytes.fromhex(j["pw"]), bytes.fromhex(j["salt"]),
@@ -908,6 +988,7 @@ def run(ctx: C.Ctx) -> None:
     run_r6_hashes(ctx)
     kinds = ["r2", "r3", "r4rc4", "r4aes", "r4id", "r5", "r6"]
     cases: List[Case] = []
+    prev: Optional[Case] = None
     n = ctx.n(120, 4000)
     for i in range(n):
         if not ctx.time_left():
@@ -915,6 +996,9 @@ def run(ctx: C.Ctx) -> None:
             break
         case = gen_case(rng, kinds[i] if i < len(kinds) else None)
         run_case(ctx, case, do_text=(i % 4 == 0), branch="doc")
+        if i % 5 == 4 and prev is not None:
+            check_interleaved(ctx, prev, case)
+        prev = case
         if i < min(ctx.n(24, 200), 48 if ctx.tier == "quick" else 400):
             cases.append(case)
     for i in range(ctx.n(len(WILD), 10 * len(WILD))):
